@@ -829,7 +829,7 @@ impl Parser {
                             Some(Lexem::Comma) => {}
                             Some(Lexem::RawString(_)) => {
                                 self.drop_lexem();
-                                let group_field = self.parse_expr().unwrap().unwrap();
+                                let group_field = self.parse_expr()?.unwrap();
                                 group_by_fields.push(group_field);
                             }
                             _ => {
